@@ -468,13 +468,22 @@ def list_insert(eng, args, kwargs, st, node):
 @method('list.index')
 def list_index(eng, args, kwargs, st, node):
     xs, x = args[0], args[1]
-    if len(args) > 2:
-        raise Undecided('list.index with start/stop', node)
     seq, elem = eng.seq_of(xs, st)
     if not isinstance(x, VStr) or elem != ('str',):
         raise Undecided('index of %r' % (x,), node)
     from . import specs_support
+    off = None
+    if len(args) > 2:
+        # xs.index(x, start[, stop]) == start' + xs[start':stop'].index(x)  (Python slice clipping)
+        if not all(isinstance(a, VInt) for a in args[2:]):
+            raise Undecided('list.index with non-int start/stop', node)
+        n = Len(seq)
+        off = eng.norm_index(args[2].t, n)
+        hi = eng.norm_index(args[3].t, n) if len(args) > 3 else n
+        seq = Substr(seq, off, Sub(hi, off))
     r = specs_support.call_spec_by_name(eng, 'first_index', [VSeq(seq, elem), x], st, node)
+    if off is not None:
+        r = VInt(Add(off, r.t))
     has = smt.mk('seq.contains', [seq, smt.Unit(x.t)], BOOL)
     out = []
     for res, s in eng._safe_result(has, r, ValueError, st, node):
